@@ -17,6 +17,8 @@ open HyperModel.Workers
 structure DState where
   s : State
   active : Bool
+  /-- a `NewJob` call is blocked on the full queue (the step `newJob` is not enabled yet) -/
+  pending : Bool
 
 def setStr (l : List Nat) : String :=
   if l.isEmpty then "-" else ",".intercalate (l.map toString)
@@ -28,7 +30,7 @@ def runningTasks (s : State) : List Nat :=
 def avail (s : State) : List Nat := (List.range s.njobs).filter fun j => (s.result j).isSome
 
 def obs (s : State) : String :=
-  s!"run={setStr (runningTasks s)} avail={setStr (avail s)} stop={if s.stop == .returned then 1 else 0}"
+  s!"run={setStr (runningTasks s)} avail={setStr (avail s)} stop={if s.stop == .returned then 1 else 0} jobs={s.njobs}"
 
 def isFinish : Step → Bool
   | .wFinish _ => true
@@ -43,11 +45,21 @@ def settle : Nat → State → Option State
 
 def fuelOf (s : State) : Nat := 8 * (s.ntasks + s.njobs + s.workers) + 64
 
+/-- the blocked `NewJob` goes through as soon as its step is enabled -/
+def resolvePending (d : DState) : Option DState :=
+  if d.pending && !d.s.shouldShutdown && isEnabled d.s .newJob then
+    let s1 := apply d.s .newJob
+    (settle (fuelOf s1) s1).map fun s2 => { d with s := s2, pending := false }
+  else some d
+
 def client (d : DState) (st : Step) (pre : String) : DState × String :=
   if !isEnabled d.s st then (d, "not-enabled") else
   let s1 := apply d.s st
   match settle (fuelOf s1) s1 with
-  | some s2 => ({ d with s := s2 }, pre ++ obs s2)
+  | some s2 =>
+    match resolvePending { d with s := s2 } with
+    | some d2 => (d2, pre ++ obs d2.s)
+    | none => (d, "model-refused")
   | none => (d, "model-refused")
 
 def resStr : Option Res → String
@@ -62,23 +74,34 @@ def parseBits : List String → Option (List Bool)
   | "1" :: r => (parseBits r).map (true :: ·)
   | _ => none
 
+def splitGroups (ws : List String) : List (List String) :=
+  let r := ws.foldl (fun (acc : List (List String) × List String) w =>
+    if w == "/" then (acc.1 ++ [acc.2], []) else (acc.1, acc.2 ++ [w])) ([], [])
+  r.1 ++ [r.2]
+
 def step (d : DState) (ws : List String) : DState × String :=
   match ws with
   | ["pool", w, m] =>
     match w.toNat?, m.toNat? with
     | some w, some m =>
-      if 1 ≤ w ∧ w ≤ 64 ∧ 1 ≤ m ∧ m ≤ 64 then ({ s := init true w m, active := true }, "ok") else (d, "bad-op")
+      if 1 ≤ w ∧ w ≤ 64 ∧ 1 ≤ m ∧ m ≤ 64 then ({ s := init true w m, active := true, pending := false }, "ok") else (d, "bad-op")
     | _, _ => (d, "bad-op")
-  | "serial" :: bits =>
-    match parseBits bits with
-    | some bs =>
-      let j := serialRun ((List.range bs.length).zip bs)
-      (d, s!"res={resStr (match j.err with | none => some Res.ok | some t => some (Res.err t))} ran={setStr j.ran.reverse}")
+  | "serial" :: ws =>
+    -- jobs (groups separated by "/") one after the other on one SerialWorkers: NewJob returns a
+    -- fresh job, so every job is `serialRun` of its own task list
+    let groups := splitGroups ws
+    match allSome (groups.map parseBits) with
+    | some gs =>
+      let one (bs : List Bool) : String :=
+        let j := serialRun ((List.range bs.length).zip bs)
+        s!"res={resStr (match j.err with | none => some Res.ok | some t => some (Res.err t))} ran={setStr j.ran.reverse}"
+      (d, " ; ".intercalate (gs.map one))
     | none => (d, "bad-op")
   | ["job"] =>
     if !d.active then (d, "bad-op") else
     if d.s.shouldShutdown then client d .newJob "shutdown "
-    else if d.s.queue.length ≥ d.s.maxJobs then (d, "full")
+    else if d.pending then (d, "busy")
+    else if d.s.queue.length ≥ d.s.maxJobs then ({ d with pending := true }, "pending " ++ obs d.s)
     else client d .newJob s!"j={d.s.njobs} "
   | ["go", j, f] =>
     if !d.active then (d, "bad-op") else
@@ -109,7 +132,8 @@ def step (d : DState) (ws : List String) : DState × String :=
     | none => (d, "bad-op")
   | ["stop"] =>
     if !d.active then (d, "bad-op") else
-    if d.s.stop != .notCalled then (d, "again") else client d .stopFlag ""
+    if d.s.stop != .notCalled then (d, "again") else
+    if d.pending then (d, "busy") else client d .stopFlag ""
   | ["wait", j] =>
     if !d.active then (d, "bad-op") else
     match j.toNat? with
@@ -133,7 +157,7 @@ def step (d : DState) (ws : List String) : DState × String :=
   | _ => (d, "bad-op")
 
 def machine : Machine :=
-  { σ := DState, init := { s := init true 1 1, active := false }, step := step }
+  { σ := DState, init := { s := init true 1 1, active := false, pending := false }, step := step }
 end Driver.C26
 
 def main : IO Unit := Driver.run Driver.C26.machine
